@@ -57,11 +57,13 @@ def main():
         cc, flags = campaign.COMPILERS[comp]
         place = case["c26"]["place"]
         pubname = "pub.hh" if mode == "hh" else "pub.h"
+        # every second pair: the private header's NAME ends with the public header's name (src/mypub.h beside include/pub.h) -- a different file all the same
+        privname = ("my" + pubname) if idx % 2 else "priv.h"
         roots, libs, pubpaths = [], [], []
         for which, sfx in ((1, ""), (2, "2")):
             root = os.path.join(c.workdir, "p%d" % idx, "%s-%s" % (comp, mode), "ab"[which - 1])
             try:
-                files, pubpath = S.hdrprog.render(case["types" + sfx], case["fns" + sfx], case["vars" + sfx], place, case.get("lang", "c"), pubname=pubname)
+                files, pubpath = S.hdrprog.render(case["types" + sfx], case["fns" + sfx], case["vars" + sfx], place, case.get("lang", "c"), pubname=pubname, privname=privname)
             except RuntimeError as ex:
                 return [("discard", "placement-not-renderable")]
             if mode == "hh":
@@ -122,7 +124,7 @@ def main():
     c.cov["by_mode"] = {m: sum(1 for e in live if e["mode"] == m) for m in MODES}
     c.cov["with_public_change"] = sum(1 for e in live if e["publicChanged"])
     c.cov["with_private_change"] = sum(1 for e in live if e["privateChanged"])
-    c.cov["rule"] = ("TLC-generated program pairs with 1-2 type mutations whose named types the model places in include/pub.h, src/priv.h or src/lib.c, compiled by %s; "
+    c.cov["rule"] = ("TLC-generated program pairs with 1-2 type mutations whose named types the model places in include/pub.h, src/priv.h (every second pair: src/mypub.h, a name that ends with the public header's) or src/lib.c, compiled by %s; "
                      "abidiff --redundant with the public headers given as directory / header file / directory holding a .hh header, with and without --drop-private-types; "
                      "non-trivial = (pair, mode) with a public change that must survive the filtering" % comps)
     for e in [e for e in live if e["publicChanged"]][:2] + [e for e in live if e["privateChanged"]][:2]:
